@@ -451,7 +451,7 @@ func init() {
 					if ch == nil || !strings.HasSuffix(pathOf(ch), ".checkAdapter") {
 						return
 					}
-					absent := false
+					absent, storedAtomically := false, false
 					for _, f := range facts(in.Block()) {
 						c, taken := f.Cond, f.Taken
 						for {
@@ -468,8 +468,12 @@ func init() {
 						if call, ok := ex.Tuple.(*ssa.Call); ok && funcID(calleeObj(&call.Call)) == "sync.(Map).Load" && strings.HasSuffix(pathOf(call.Call.Args[0]), ".checkAdapterList") {
 							absent = true
 						}
+						// LoadOrStore does the test and the recording in one step
+						if call, ok := ex.Tuple.(*ssa.Call); ok && funcID(calleeObj(&call.Call)) == "sync.(Map).LoadOrStore" && strings.HasSuffix(pathOf(call.Call.Args[0]), ".checkAdapterList") {
+							absent, storedAtomically = true, true
+						}
 					}
-					stored := false
+					stored := storedAtomically
 					eachInstr(fn, func(j ssa.Instruction) {
 						if c := callCommon(j); c != nil && funcID(calleeObj(c)) == "sync.(Map).Store" && strings.HasSuffix(pathOf(c.Args[0]), ".checkAdapterList") {
 							if j.Block() == in.Block() || instrDominates(j, in) || instrDominates(in, j) {
